@@ -1,6 +1,6 @@
 (* C03 - the property theorems, nothing else. *)
 From Coq Require Import Permutation.
-From CfdmV Require Import Common.Base Common.PySlice C03.Model C03.Lemmas C03.SetLemmas.
+From CfdmV Require Import Common.Base Common.PySlice C03.Model C03.Lemmas C03.SetLemmas C03.SetFull.
 Open Scope Z_scope.
 
 (* Every position a Python slice selects on an axis of size len is a valid index. *)
@@ -72,26 +72,28 @@ Theorem C03_pair_chunks :
 Proof. exact pair_chunks_correct. Qed.
 Print Assumptions C03_pair_chunks.
 
-(* n-dimensional assignment.  Full statement: for every array, index expression
-   and broadcastable value, Data.__setitem__ (numpy assignment for at most one
-   list axis; otherwise the product of the per-axis slice-pair decompositions,
-   visited block by block with the matching windows of the value) produces the
-   array that the reference semantics produces: element (p_1[t_1], ..., p_d[t_d])
-   receives value[t], row-major, later stores winning.
-   Proved here for every rank, shape, index expression and value, under the
-   guard that no axis selects the same position twice (then all stores hit
-   distinct elements and the block order is a permutation of the row-major
-   order).  What is missing for the unguarded statement: the n-d lift of the
-   last-store-wins argument for repeated positions; it is proved per axis
-   (C03_pair_chunks) and the n-d equality is evaluated on every generated case
-   by Run.check_set. *)
-Theorem C03_setitem_decomposition_partial :
-  forall shape a idx vshape v sh ps poss,
-  parse_indices shape idx = Ok ps -> positions_all_py shape ps = Ok poss ->
-  Forall (@NoDup nat) poss -> shaped sh a -> length sh = length shape ->
+(* n-dimensional assignment: for every array, every index expression (in-range
+   lists unsorted, negative, REPEATED; slices of any sign; any mixture) and every
+   broadcastable value, Data.__setitem__ - numpy assignment for at most one list
+   axis, otherwise the product of the per-axis slice-pair decompositions, visited
+   block by block with the matching windows of the value - produces exactly the
+   array of the reference semantics: element (p_1[t_1], ..., p_d[t_d]) receives
+   value[t], row-major, a later store to the same element winning.  No guard
+   beyond the array having the stated shape. *)
+Theorem C03_setitem_decomposition :
+  forall shape a idx vshape v,
+  Forall (fun n => 0 <= n) shape -> shaped (map Z.to_nat shape) a ->
   setitem shape a idx vshape v = setitem_spec shape a idx vshape v.
-Proof. exact setitem_decomposition. Qed.
-Print Assumptions C03_setitem_decomposition_partial.
+Proof. exact setitem_decomposition_full. Qed.
+Print Assumptions C03_setitem_decomposition.
+
+(* The element an array ends up with is the value of the last store addressed to it. *)
+Theorem C03_exec_last_writer :
+  forall sh P a q,
+  shaped sh a -> Forall (fun st => in_bounds sh (fst st)) P -> in_bounds sh q ->
+  get (exec P a) q = match last_writer P q with Some v => v | None => get a q end.
+Proof. exact exec_get. Qed.
+Print Assumptions C03_exec_last_writer.
 
 (* Stores to distinct elements commute, so any visiting order gives the same array. *)
 Theorem C03_exec_any_order :
